@@ -991,6 +991,16 @@ func (fv *FuncVerifier) callWrites(env *Env, call *ast.CallExpr, ws *writeSet, d
 					}
 				}
 				fv.mapArgWrites(env, call, ws, depth)
+				// element writes through a slice parameter are writes to the caller's slice
+				for po, ae := range actual {
+					if po == nil || !sub.vars[po] {
+						continue
+					}
+					if _, isSl := po.Type().Underlying().(*types.Slice); isSl && isLvalue(ae) {
+						fake := &ast.AssignStmt{Lhs: []ast.Expr{ae}}
+						fv.collectWrites(env, fake, ws, depth+1)
+					}
+				}
 				return
 			}
 			if c != nil && c.Has("assigns", 0) {
